@@ -454,7 +454,7 @@ func runGuardedBy(prog *Prog, sc StaticCheck) *StaticResult {
 			res.Failures = append(res.Failures, "holder "+hn+" has no call site (stale holder declaration)")
 		}
 	}
-	if nAccess == 0 {
+	if nAccess == 0 && len(data) > 0 {
 		res.Obligations++
 		res.Failures = append(res.Failures, "no access to the guarded locations found (vacuous: stale location names?)")
 	}
@@ -1121,5 +1121,168 @@ func runOnceInit(prog *Prog, sc StaticCheck) *StaticResult {
 	res.Trusted = append(res.Trusted, "sync.Once: Do runs the function once and every return from Do happens after that run completed")
 	res.Detail = map[string]interface{}{"once": sc.Args["once"], "data": sc.Args["data"], "accesses": nAcc, "do_sites": nDo}
 	sort.Strings(res.Trusted)
+	return res
+}
+
+// ---------------------------------------------------------------------------------------------
+// critical-section: the function takes the mutex before doing anything else, releases it only by a deferred
+// Unlock, and never unlocks explicitly: everything it does forms one critical section.
+func runCriticalSection(prog *Prog, sc StaticCheck) *StaticResult {
+	res := &StaticResult{Name: sc.Name, Kind: sc.Kind}
+	fn := prog.FindFunc(modPath+"/"+sc.Pkg, sc.Args["func"])
+	if fn == nil {
+		res.Obligations = 1
+		res.Failures = append(res.Failures, "binding: function "+sc.Args["func"]+" not found")
+		return res
+	}
+	mu := parseLoc(sc.Args["mutex"])
+	res.Obligations = 3
+	// (1) the first call of the entry block is Lock(mu)
+	first := false
+	for _, in := range fn.Blocks[0].Instrs {
+		if ev, ok := lockCall(in, mu); ok && ev.lock && !ev.reader {
+			first = true
+			break
+		}
+		if _, isCall := in.(ssa.CallInstruction); isCall {
+			break
+		}
+	}
+	if first {
+		res.Discharged++
+	} else {
+		res.Failures = append(res.Failures, fmt.Sprintf("%s does not lock %s before its first call", sc.Args["func"], sc.Args["mutex"]))
+	}
+	// (2) a deferred Unlock in the entry block, (3) no explicit Unlock anywhere
+	deferred, explicit := false, ""
+	for _, b := range fn.Blocks {
+		for _, in := range b.Instrs {
+			if d, ok := in.(*ssa.Defer); ok && b == fn.Blocks[0] {
+				if c := d.Call.StaticCallee(); c != nil && strings.HasSuffix(c.String(), "Mutex).Unlock") && len(d.Call.Args) > 0 {
+					if _, ok := matchLoc(d.Call.Args[0], mu); ok {
+						deferred = true
+					}
+				}
+			}
+			if ev, ok := lockCall(in, mu); ok && !ev.lock {
+				explicit = posOf(prog, in.Pos())
+			}
+		}
+	}
+	if deferred {
+		res.Discharged++
+	} else {
+		res.Failures = append(res.Failures, fmt.Sprintf("%s does not defer %s.Unlock() at its start", sc.Args["func"], sc.Args["mutex"]))
+	}
+	if explicit == "" {
+		res.Discharged++
+	} else {
+		res.Failures = append(res.Failures, fmt.Sprintf("%s unlocks %s explicitly at %s: its read-modify-write is not one critical section", sc.Args["func"], sc.Args["mutex"], explicit))
+	}
+	// (4) the calls that must be inside the section are there
+	for _, want := range splitList(sc.Args["contains"]) {
+		res.Obligations++
+		found := false
+		for _, b := range fn.Blocks {
+			for _, in := range b.Instrs {
+				if ci, ok := in.(ssa.CallInstruction); ok && ci.Common().StaticCallee() != nil && contractName(ci.Common().StaticCallee()) == want {
+					found = true
+				}
+			}
+		}
+		if found {
+			res.Discharged++
+		} else {
+			res.Failures = append(res.Failures, fmt.Sprintf("%s no longer calls %s (stale obligation)", sc.Args["func"], want))
+		}
+	}
+	res.Samples = append(res.Samples, map[string]interface{}{"obligation": fmt.Sprintf("%s#critical-section(%s) around %s", sc.Args["func"], sc.Args["mutex"], sc.Args["contains"]), "backend": "structural"})
+	return res
+}
+
+// atomic-write: the function replaces the file named by its parameter <dest> atomically: it never opens or
+// writes the destination directly (no os.WriteFile / os.Create / os.OpenFile), writes a file obtained from
+// os.CreateTemp, closes it, and only then renames it onto <dest>; Rename is the only call that receives <dest>
+// as a destination, and it is dominated by the Write and the Close.
+func runAtomicWrite(prog *Prog, sc StaticCheck) *StaticResult {
+	res := &StaticResult{Name: sc.Name, Kind: sc.Kind}
+	fn := prog.FindFunc(modPath+"/"+sc.Pkg, sc.Args["func"])
+	if fn == nil {
+		res.Obligations = 1
+		res.Failures = append(res.Failures, "binding: function "+sc.Args["func"]+" not found")
+		return res
+	}
+	var dest *ssa.Parameter
+	for _, p := range fn.Params {
+		if p.Name() == sc.Args["dest"] {
+			dest = p
+		}
+	}
+	if dest == nil {
+		res.Obligations = 1
+		res.Failures = append(res.Failures, "binding: parameter "+sc.Args["dest"]+" not found")
+		return res
+	}
+	var createTemp, write, closeC, rename *ssa.Call
+	var direct []string
+	for _, b := range fn.Blocks {
+		for _, in := range b.Instrs {
+			c, ok := in.(*ssa.Call)
+			if !ok || c.Call.StaticCallee() == nil {
+				continue
+			}
+			switch c.Call.StaticCallee().String() {
+			case "os.WriteFile", "os.Create", "os.OpenFile", "io/ioutil.WriteFile":
+				direct = append(direct, fmt.Sprintf("%s at %s", c.Call.StaticCallee().String(), posOf(prog, c.Pos())))
+			case "os.CreateTemp":
+				createTemp = c
+			case "(*os.File).Write", "(*os.File).WriteString":
+				write = c
+			case "(*os.File).Close":
+				closeC = c
+			case "os.Rename":
+				if len(c.Call.Args) == 2 && c.Call.Args[1] == dest {
+					rename = c
+				}
+			}
+		}
+	}
+	check := func(ok bool, passName, failMsg string) {
+		res.Obligations++
+		if ok {
+			res.Discharged++
+			res.Samples = append(res.Samples, map[string]interface{}{"obligation": sc.Args["func"] + "#" + passName, "backend": "structural/dominance"})
+		} else {
+			res.Failures = append(res.Failures, failMsg)
+		}
+	}
+	check(len(direct) == 0, "never opens the destination for writing", fmt.Sprintf("%s writes in place: %s", sc.Args["func"], strings.Join(direct, ", ")))
+	check(createTemp != nil && write != nil && closeC != nil, "writes a temporary file and closes it", sc.Args["func"]+" does not write and close a file from os.CreateTemp")
+	check(rename != nil, "renames the temporary file onto "+sc.Args["dest"], sc.Args["func"]+" does not os.Rename onto "+sc.Args["dest"])
+	if rename != nil && write != nil && closeC != nil {
+		dominates := func(a, b *ssa.Call) bool {
+			if a.Block() == b.Block() {
+				for _, in := range a.Block().Instrs {
+					if in == a {
+						return true
+					}
+					if in == b {
+						return false
+					}
+				}
+			}
+			return a.Block().Dominates(b.Block())
+		}
+		check(dominates(write, rename) && dominates(closeC, rename), "rename happens after the data is written and the file closed", "os.Rename is not dominated by the Write and Close of the temporary file")
+		// the temporary file lives in the destination's directory (rename within one file system)
+		sameDir := false
+		if createTemp != nil {
+			if dc, ok := createTemp.Call.Args[0].(*ssa.Call); ok && dc.Call.StaticCallee() != nil && dc.Call.StaticCallee().String() == "path/filepath.Dir" && dc.Call.Args[0] == dest {
+				sameDir = true
+			}
+		}
+		check(sameDir, "temporary file is created in filepath.Dir("+sc.Args["dest"]+")", "temporary file is not created in the destination's directory (rename may cross file systems)")
+	}
+	res.Trusted = append(res.Trusted, "os.Rename within a directory replaces the destination atomically (POSIX rename); durability against power loss (fsync) is not claimed")
 	return res
 }
